@@ -890,6 +890,9 @@ pub fn finish(check: &'static dyn Check, tier: Tier, seed: u64, agg: Agg, distin
         if agg.evaluations == 0 {
             floor_misses.push("no evaluations".into());
         }
+        if let Some(n) = agg.features.get("watchdog") {
+            floor_misses.push(format!("a wall-clock watchdog fired {} time(s) without a logical witness (see notes): no verdict for those samples", n));
+        }
     }
     let verdict = if !new_viol.is_empty() {
         "violated"
